@@ -14,7 +14,7 @@ Recs == ndJsonDeserialize(IOEnv.TRACE)
 VARIABLE l
 vars == <<l>>
 
-KnownDevWhys == {"dev:D7b-nonconstant-sum-operand-omitted"}
+KnownDevWhys == DevWhys
 
 Verdict(rid, prop, v, detail) == PrintT("VERDICT|" \o rid \o "|" \o prop \o "|" \o v \o "|" \o ToString(detail))
 
@@ -26,21 +26,22 @@ DebugCount(dbg, tag) ==
   ELSE (IF Head(dbg).tag = tag THEN Head(dbg).n ELSE 0) + DebugCount(Tail(dbg), tag)
 
 JudgeOk(r) ==
-  LET modified == r.status = "modified"
-      inj == IF modified THEN Injected(r.out, r.in) ELSE {}
-      ci == Er(r.in, EmptyEnv({}))
-      e == IF modified THEN Er(r.out, EmptyEnv(inj)) ELSE ci
-      m == Match(e, ci)
-      marks == Marks(e)
-      sites == SitesOf(r.in, Ctx0, r.cfg)
-      pairs == IF m.ok THEN HookPairs(e, ci) ELSE {}
-      hookedIds == {p[1] : p \in pairs}
-      siteIdx == 1..Len(sites)
+  \E modified \in {r.status = "modified"} :
+  \E rin \in {TreeOf(r.in)} :
+  \E rout \in {TreeOf(r.out)} :
+  \E ci \in {Er(rin, EmptyEnv({}))} :
+  \E e \in {IF modified THEN Er(rout, EmptyEnv(Injected(rout, rin))) ELSE ci} :
+  \E m \in {Match(e, ci)} :
+  \E marks \in {Marks(e)} :
+  \E sites \in {SitesOf(rin, Ctx0, r.cfg)} :
+  \E pairs \in {IF m.ok THEN HookPairs(e, ci) ELSE {}} :
+  \E hookedIds \in {{p[1] : p \in pairs}} :
+  LET siteIdx == 1..Len(sites)
       missing == {i \in siteIdx : sites[i].req /\ sites[i].id \notin hookedIds}
       strayPairs == {p \in pairs : ~\E i \in siteIdx :
                         sites[i].id = p[1] /\ sites[i].en /\ sites[i].dst = p[2]}
       alld == SetOfSeq(r.cfg.alldsts)
-      strayNames == IF modified /\ ~r.in_mentions_ns THEN NamespaceRefs(r.out) \ alld ELSE {}
+      strayNames == IF modified /\ ~r.in_mentions_ns THEN NamespaceRefs(rout) \ alld ELSE {}
       whys == {marks[i].hw : i \in 1..Len(marks)} \ {""}
       nhooks == IF m.ok THEN Cardinality(pairs) ELSE Len(marks)
       hookedTags == {sites[i].tag : i \in {j \in siteIdx : sites[j].id \in hookedIds}}
